@@ -53,6 +53,19 @@ fn gram(a: &Mat, p: usize, d: f64) -> Mat {
     }
     c
 }
+/// order-sensitive 64-bit checksum of the bits of a matrix, row by row (FNV-style; the driver computes
+/// the same over the model's `center X mean`): ties the argument of the solver parameter in the model
+/// to the matrix the hook was evaluated on
+fn checksum(a: &Array2<f64>) -> u64 {
+    let mut h = 0xcbf29ce484222325u64;
+    for row in a.rows() {
+        h = h.wrapping_mul(31).wrapping_add(7);
+        for v in row {
+            h = (h ^ v.to_bits()).wrapping_mul(0x100000001b3);
+        }
+    }
+    h
+}
 fn max_abs(a: &Mat) -> f64 {
     a.iter().flat_map(|r| r.iter()).fold(0.0f64, |m, x| m.max(x.abs()))
 }
@@ -224,6 +237,16 @@ fn gen_matrix(rng: &mut Rng, kind: &str, n: usize, p: usize) -> Mat {
             let g: Mat = (0..n).map(|_| (0..p).map(|j| gauss(rng) * axis[j]).collect()).collect();
             mat_mul(&g, &q)
         }
+        // data of scale 1e6 .. 1e9 (column standard deviations up to 1e9): the whitened rows have squared
+        // norm (n-1)/sigma^2 far below f64::EPSILON, the covariance entries reach 1e18
+        "huge_scale" => {
+            let sc = 10f64.powf(6.0 + 3.0 * rng.unit());
+            let s = 0.5 * rng.unit();
+            let axis: Vec<f64> = (0..p).map(|j| sc * 10f64.powf(-s * j as f64)).collect();
+            let q = rand_orth(rng, p);
+            let g: Mat = (0..n).map(|_| (0..p).map(|j| gauss(rng) * axis[j]).collect()).collect();
+            mat_mul(&g, &q)
+        }
         // exact linear dependence between columns (integers): outside "low-rank plus noise",
         // kept as a separate class — the SVD may return fewer than k components here
         _ => {
@@ -376,6 +399,7 @@ struct Seen {
     spectral_ok: bool,
     whitened_checked: bool,
     floored: bool,
+    wide_spread: bool,
 }
 
 /// the statement's clauses on one training matrix, embedding size and whitening flag
@@ -384,7 +408,6 @@ fn oracle(ctx: &mut Ctx, kind: &str, x: &Mat, p: usize, k: usize, w: bool, lay: 
     let n = x.len();
     let kp = regime(k, p);
     let dense = kp != "5k<=p";
-    let class = format!("data={};{};whiten={}", kind, kp, w as u8);
     let fails0 = ctx.fails.len();
     let m = col_mean(x, p);
     let xc = centred(x, &m);
@@ -395,6 +418,13 @@ fn oracle(ctx: &mut Ctx, kind: &str, x: &Mat, p: usize, k: usize, w: bool, lay: 
         ctx.mark_trivial();
         return seen;
     }
+    // dense regimes: the class says whether the spectrum of the covariance is spread over more than five
+    // orders of magnitude (smallest eigenvalue below 1e-5 of the largest — the thorough tier has a 54x7
+    // low-rank+noise matrix failing at 2.7e-6; the dense solver decomposes the whole matrix whatever k) — the open finding about linfa-linalg's dense `eigh` concerns only
+    // those fits, every other fit of the same kind is strict
+    let wide_spread = dense && !(lam[p - 1] >= 1e-5 * lmax);
+    seen.wide_spread = wide_spread;
+    let class = format!("data={};{};whiten={}{}", kind, kp, w as u8, if wide_spread { ";spread=wide" } else { "" });
     let scale = max_abs(&xc).max(f64::MIN_POSITIVE);
     let r = f.sigma.len();
     // The truncated SVD drops singular values with sigma_i^2 <= eps*1e6*sigma_max^2 (2.2e-10 relative
@@ -521,15 +551,19 @@ fn oracle(ctx: &mut Ctx, kind: &str, x: &Mat, p: usize, k: usize, w: bool, lay: 
         // clause is evaluated for every spectrum (skipped only when a sigma sits on the floor).
         let zmw = col_mean(&z, r);
         let czw = gram(&centred(&z, &zmw), r, (n - 1) as f64);
-        let lmin = (0..r).map(|i| lam[i]).fold(f64::INFINITY, f64::min);
+        let lmin = (0..r).filter(|i| !floored[*i]).map(|i| lam[i]).fold(f64::INFINITY, f64::min);
         let tol = (1e-6 + 1e-12 * (lmax / lmin.max(f64::MIN_POSITIVE))).min(1e-2);
+        // components on the floor are scaled by sqrt(n-1)/1e-8, not by their own sigma: the clause is
+        // evaluated on the block of the other components (skipped only when every component is floored)
         let mut worst = 0.0f64;
         for i in 0..r {
             for j in 0..r {
-                worst = worst.max((czw[i][j] - if i == j { 1.0 } else { 0.0 }).abs());
+                if !floored[i] && !floored[j] {
+                    worst = worst.max((czw[i][j] - if i == j { 1.0 } else { 0.0 }).abs());
+                }
             }
         }
-        if any_floored {
+        if floored.iter().all(|b| *b) {
             ctx.mark_trivial();
         } else {
             seen.whitened_checked = true;
@@ -576,6 +610,18 @@ fn oracle(ctx: &mut Ctx, kind: &str, x: &Mat, p: usize, k: usize, w: bool, lay: 
     // (8) the other calling forms of the projection, on the training records in their layout
     calling_forms(ctx, f, x, p, lay, &z, scale);
     seen.spectral_ok = ctx.fails.len() == fails0;
+    // (9) a component on the 1e-8 floor: the statement has no exception for it — the reported singular
+    // value / explained variance must still be the data's.  Own clause (the clauses above skip the
+    // component), evaluated after the `clean` verdict; it fails whenever the floor really acts.
+    for i in 0..r {
+        if floored[i] {
+            let truth = lam[i].max(0.0);
+            let rep = if i < f.ev.len() { f.ev[i] } else { f64::NAN };
+            ctx.require((rep - truth).abs() <= 1e-6 * truth + 1e-12 * lmax, "floored_variance", &class, || {
+                format!("component {}: singular value {:e} is the 1e-8 floor; explained_variance() reports {:e} but coordinate {} of the projected training data has eigenvalue / sample variance {:e} (true singular value {:e})", i, f.sigma[i], rep, i, truth, (truth * (n - 1) as f64).sqrt())
+            });
+        }
+    }
     seen
 }
 
@@ -600,6 +646,15 @@ struct Req {
 fn op_fit(em: &mut Em, rq: Req) {
     let Req { kind, x, p, k, w, lay, form, q } = rq;
     let n = x.len();
+    // tiny / huge data: the two query rows that are not training rows (a lattice point, a generic point,
+    // both of size 1) are brought to the data's scale — a query 1e7 times larger than the data only measures
+    // how orthonormal the components are, and the absolute tolerances of `fitt` / `fith` assume the scale
+    let q: Mat = if kind == "tiny_scale" || kind == "huge_scale" {
+        let sc = max_abs(&x);
+        q.into_iter().enumerate().map(|(i, r)| if i >= 2 { r.iter().map(|v| v * sc).collect() } else { r }).collect()
+    } else {
+        q
+    };
     // what the external solver returns on the centred matrix (None when fit rejects before it).
     // The SPECIFIED rule of `leading_svd` decides which of the two solver calls is asked: dense full
     // block on min(n,p) pairs when min(n,p) < 5k, LOBPCG on k pairs otherwise; the model applies the
@@ -607,6 +662,7 @@ fn op_fit(em: &mut Em, rq: Req) {
     let guard_rejects = n == 0 || p < k || k == 0;
     let dim = n.min(p);
     let raw = if dim < 5 * k { "dense" } else { "iter" };
+    let mut xch = 0u64;
     let svd = if guard_rejects {
         None
     } else {
@@ -615,6 +671,7 @@ fn op_fit(em: &mut Em, rq: Req) {
         let xv = laid.view();
         let mean = xv.mean_axis(Axis(0)).unwrap();
         let xc = &xv - &mean;
+        xch = checksum(&xc);
         // the solver may panic (it unwraps a partial_cmp); `fit` then panics the same way
         match std::panic::catch_unwind(std::panic::AssertUnwindSafe(|| {
             if raw == "dense" {
@@ -631,14 +688,19 @@ fn op_fit(em: &mut Em, rq: Req) {
         None => "svd=none".to_string(),
         Some(Err(e)) if e == "panic" => "svd=panic".to_string(),
         Some(Err(_)) => "svd=err".to_string(),
-        Some(Ok((s, vt))) => format!("svd=ok raw={} sv={} vt={}", raw, list(s.iter(), |v| hex64c(*v)), exact2(&from_arr(vt))),
+        Some(Ok((s, vt))) => format!("svd=ok raw={} num={} xch={:016x} sv={} vt={}", raw, if raw == "dense" { dim } else { k }, xch, list(s.iter(), |v| hex64c(*v)), exact2(&from_arr(vt))),
     };
+    // un-whitened tiny-scale data: predictions of size 1e-4 .. 1e-10 — the absolute part of the float
+    // comparison is 1e-15 there (op name `fitt`, same request otherwise) instead of 1e-9
+    // huge-scale data (means and predictions up to 1e9): `fith`, absolute part 1e-4 — a query row of
+    // size 1 is reconstructed from numbers of size 1e9, with an error of about 1e-16 * 1e9 * p
+    let opname = if kind == "tiny_scale" && !w { "fitt" } else if kind == "huge_scale" { "fith" } else { "fit" };
     // integer targets and weights of the dataset over the query rows (transform / predict forms)
     let tq: Vec<i64> = (0..q.len()).map(|i| ((3 * i + k) % 7) as i64 - 2).collect();
     let wq: Vec<i64> = (0..q.len()).map(|i| (1 + (i + p) % 4) as i64).collect();
     let op = format!(
-        "fit n={} p={} k={} w={} lay={} form={} x={} {} q={} t={} wt={}",
-        n, p, k, w as u8, lay, form, exact2(&x), svd_s, exact2(&q), list(tq.iter(), |v| v.to_string()), list(wq.iter(), |v| v.to_string())
+        "{} n={} p={} k={} w={} lay={} form={} x={} {} q={} t={} wt={}",
+        opname, n, p, k, w as u8, lay, form, exact2(&x), svd_s, exact2(&q), list(tq.iter(), |v| v.to_string()), list(wq.iter(), |v| v.to_string())
     );
     em.count(&format!("kind:{}", kind));
     em.count(&format!("whiten:{}", w as u8));
@@ -716,6 +778,9 @@ fn op_fit(em: &mut Em, rq: Req) {
         }
         if s.floored {
             em.count("sigma:floored");
+        }
+        if s.wide_spread {
+            em.count("spread:wide");
         }
     }
 }
@@ -836,6 +901,46 @@ pub fn run(em: &mut Em, rng: &mut Rng) {
         }
     }
 
+    // big stream: sizes beyond every other stream — more than 64 features in both dense regimes and in
+    // the LOBPCG regime, more than 1000 records — so that a size-gated path (`dim <= 64`, `nrows > 1000`)
+    // is entered; clean kinds only (their clauses are all strict)
+    let big: &[(usize, usize, usize)] = if thorough {
+        &[(72, 90, 20), (66, 70, 14), (70, 75, 70), (80, 100, 3), (96, 130, 40), (128, 140, 30), (3, 1200, 2), (5, 1100, 1), (4, 2100, 4), (12, 1500, 3)]
+    } else {
+        &[(72, 90, 20), (66, 70, 14), (70, 75, 70), (80, 100, 3), (3, 1200, 2), (5, 1100, 1)]
+    };
+    for (i, &(p, n, k)) in big.iter().enumerate() {
+        for kind in ["isotropic", "offset", "lattice"] {
+            if kind == "lattice" && 5 * k <= p {
+                continue; // open finding lobpcg-nan-panic covers lattice in that regime
+            }
+            let x = gen_matrix(rng, kind, n, p);
+            let q = queries(rng, &x, p);
+            let (lay, form) = next(&mut rot);
+            em.count("stream:big");
+            op_fit(em, Req { kind, x, p, k, w: i % 2 == 1, lay, form, q });
+        }
+    }
+
+    // huge stream: column scales 1e6 .. 1e9 (the mirror image of `tiny_scale`): squared norms of the
+    // whitened rows far below f64::EPSILON, covariance entries up to 1e18
+    for rep in 0..(if thorough { 6 } else { 2 }) {
+        for p in 2..=(if thorough { 8usize } else { 6 }) {
+            let n = p + 1 + rng.below(nextra + 1);
+            let x = gen_matrix(rng, "huge_scale", n, p);
+            let q = queries(rng, &x, p);
+            for k in 1..=p {
+                let (lay, form) = next(&mut rot);
+                em.count("stream:huge");
+                op_fit(em, Req { kind: "huge_scale", x: x.clone(), p, k, w: (rep + k) % 2 == 0, lay, form, q: q.clone() });
+                if k == p {
+                    let (lay, form) = next(&mut rot);
+                    op_fit(em, Req { kind: "huge_scale", x: x.clone(), p, k, w: (rep + k) % 2 == 1, lay, form, q: q.clone() });
+                }
+            }
+        }
+    }
+
     // constant records: zero covariance (correspondence only, see op_fit)
     for i in 0..(if thorough { 24 } else { 8 }) {
         let p = 1 + i % 4;
@@ -851,6 +956,13 @@ pub fn run(em: &mut Em, rng: &mut Rng) {
     // n = 1 is not sent: the statement says nothing about a single sample and the variance divisor
     // n - 1 is zero there)
     let nerr = if thorough { 400 } else { 100 };
+    // no feature at all (p = 0): every embedding size is outside 1..p
+    for (n, k) in [(3usize, 0usize), (3, 1), (1, 2), (0, 0), (0, 1)] {
+        let x: Mat = (0..n).map(|_| vec![]).collect();
+        em.count("err:p=0");
+        let (lay, form) = next(&mut rot);
+        op_fit(em, Req { kind: "lattice", x, p: 0, k, w: k % 2 == 1, lay, form, q: vec![] });
+    }
     for _ in 0..nerr {
         let p = 1 + rng.below(5);
         let which = rng.below(5);
